@@ -55,3 +55,59 @@ func (state *State) VerifWrapBlock(hash bitcoin.Hash32, wrap func(wire.Block) wi
 	}
 	return false
 }
+
+// VerifMemTx is the projection of one mempool entry.
+type VerifMemTx struct {
+	Body    bool
+	Trusted bool
+}
+
+// VerifProject returns the mempool contents under its own lock.
+func (memPool *MemPool) VerifProject() (txs map[bitcoin.Hash32]VerifMemTx, inputs map[bitcoin.Hash32][]bitcoin.Hash32, requests map[bitcoin.Hash32]time.Time) {
+	memPool.mutex.Lock()
+	defer memPool.mutex.Unlock()
+	txs = map[bitcoin.Hash32]VerifMemTx{}
+	for k, v := range memPool.txs {
+		txs[k] = VerifMemTx{Body: len(v.outPoints) > 0, Trusted: v.trusted}
+	}
+	inputs = map[bitcoin.Hash32][]bitcoin.Hash32{}
+	for k, v := range memPool.inputs {
+		inputs[k] = append([]bitcoin.Hash32{}, v...)
+	}
+	requests = map[bitcoin.Hash32]time.Time{}
+	for k, v := range memPool.requests {
+		requests[k] = v
+	}
+	return
+}
+
+// VerifShiftClocks moves the stored timestamps of the mempool back by d.
+func (memPool *MemPool) VerifShiftClocks(d time.Duration) {
+	memPool.mutex.Lock()
+	defer memPool.mutex.Unlock()
+	for k, v := range memPool.requests {
+		memPool.requests[k] = v.Add(-d)
+	}
+	for _, v := range memPool.txs {
+		v.time = v.time.Add(-d)
+	}
+}
+
+// VerifProject returns the tracked txids.
+func (tracker *TxTracker) VerifProject() map[bitcoin.Hash32]time.Time {
+	tracker.mutex.Lock()
+	defer tracker.mutex.Unlock()
+	r := map[bitcoin.Hash32]time.Time{}
+	for k, v := range tracker.txids {
+		r[k] = v
+	}
+	return r
+}
+
+func (tracker *TxTracker) VerifShiftClocks(d time.Duration) {
+	tracker.mutex.Lock()
+	defer tracker.mutex.Unlock()
+	for k, v := range tracker.txids {
+		tracker.txids[k] = v.Add(-d)
+	}
+}
